@@ -6,6 +6,8 @@
 #include "../VectorTools.h"
 #include "AbstractDiscreteDistribution.h"
 
+#include <cmath>
+
 using namespace bpp;
 using namespace std;
 
@@ -433,12 +435,19 @@ void AbstractDiscreteDistribution::discretizeEqualProportions()
   double p = 1. / static_cast<double>(numberOfCategories_);
   for (i = 0; i < numberOfCategories_; i++)
   {
+    if (!std::isfinite(values[i]))
+      throw Exception("AbstractDiscreteDistribution::discretizeEqualProportions. A class value is not a finite number.");
     if (distribution_.find(values[i]) != distribution_.end())
     {
       int j = 1;
       int f = ((values[i] + NumConstants::TINY()) >= intMinMax_->getUpperBound()) ? -1 : 1;
       while (distribution_.find(values[i] + f * j * precision()) != distribution_.end())
       {
+        // At most numberOfCategories_ - 1 keys are taken, each hiding a few steps on either side: if
+        // no free key has been found by now, steps of the precision are below the resolution of the
+        // values and the search would never end.
+        if (static_cast<size_t>(j) > 10 * (numberOfCategories_ + 1))
+          throw Exception("AbstractDiscreteDistribution::discretizeEqualProportions. Class values cannot be told apart at precision " + TextTools::toString(precision()) + ".");
         j++;
         f = ((values[i] + f * j * precision()) >= intMinMax_->getUpperBound()) ? -1 : 1;
       }
